@@ -68,6 +68,8 @@ FAMILY = [
     ("implicit_i18n_attributes_members", ["alt"], ["title"], '<img alt="Hello" title="World" />', "PageTemplate", "PageTemplate"),
     ("extra_builtins_more", {"foo": 1}, {"foo": 1, "bar": 2}, "<p>${foo} ${bar | 'nobar'}</p>", "PageTemplate", "PageTemplate"),
     ("default_expression_structure", "python", "structure", '<p tal:content="name">x</p>', "PageTemplate", "PageTemplate"),
+    ("tokenizer", None, "iter_text", 'hello <b tal:content="name">x</b> there', "PageTemplate", "PageTemplate"),
+    ("default_marker", None, "MY", '<p tal:content="m">dflt</p>', "PageTemplate", "PageTemplate"),
     # runtime-only options: sharing an entry is *correct* for these
     ("encoding", None, "utf-8", '<p tal:content="name">x</p>', "PageTemplate", "PageTemplate"),
     ("extra_builtins_value", {"foo": 1}, {"foo": 2}, "<p>${foo}</p>", "PageTemplate", "PageTemplate"),
@@ -84,6 +86,24 @@ OPTION_OF = {
 SET_OPTIONS = {"implicit_i18n_attributes", "boolean_attributes"}
 
 
+class _Marker:
+    """An importable marker object (generated code imports it by name)."""
+
+    def __init__(self, module: str, name: str) -> None:
+        self.__module__ = module
+        self.name = name
+
+    @property
+    def __name__(self) -> str:
+        return "%s_MARKER" % self.name
+
+    def __repr__(self) -> str:
+        return "<%s>" % self.name
+
+
+MY_MARKER = _Marker(__name__, "MY")
+
+
 def upper_translate(msgid, domain=None, mapping=None, context=None,
                     target_language=None, default=None):
     text = default if default is not None else msgid
@@ -95,7 +115,7 @@ def upper_translate(msgid, domain=None, mapping=None, context=None,
 
 def render_args() -> dict:
     return {"name": "W<o>rld", "items": [1, 2, 3], "c": True,
-            "translate": upper_translate}
+            "translate": upper_translate, "m": MY_MARKER}
 
 
 _ADDR = re.compile(r"0x[0-9a-fA-F]+")
@@ -167,6 +187,12 @@ class C15(CheckBase):
             k = OPTION_OF.get(k, k)
             if k in SET_OPTIONS and v is not None:
                 v = set(v)
+            if k == "tokenizer" and v == "iter_text":
+                from chameleon.tokenize import iter_text
+                v = iter_text
+            if k == "default_marker" and v == "MY":
+                from chameleon.astutil import Symbol
+                v = Symbol(MY_MARKER)
             cfg[k] = v
         return cfg
 
